@@ -27,12 +27,18 @@ def fmt(v):
     return fmt_num(v)
 
 
-def program(seq):
+def program(seq, via_fn=False):
+    """via_fn: every read, write, delete and listing goes through one helper function per key, so that the SAME
+    syntactic site is executed before and after the object changes (and on different objects)"""
     v = {'o': {'k': 1, 'v': 2}, 'p': None}
     v['p'] = v['o']
     out = []
     err = False
     lines = ['%s o = {k: 1, v: 2};' % VAR, '%s p = o;' % VAR, '%s q = {};' % VAR]
+    if via_fn:
+        for j, k in enumerate(KEYS_):
+            lines += ['%s rd%d(x) { %s x.%s; }' % (FUN, j, RETURN, k), '%s wr%d(x, w) { x.%s = w; }' % (FUN, j, k)]
+        lines += ['%s dl(x, key) { %s(x, key); }' % (FUN, DELETE), '%s ks(x) { %s %s(x); }' % (FUN, RETURN, KEYS), '%s vs(x) { %s %s(x); }' % (FUN, RETURN, VALUES)]
     v['q'] = {}
     for i, ((op, arg), tgt, other) in enumerate(seq):
         if err:
@@ -48,17 +54,17 @@ def program(seq):
         elif op == 'read':
             if arg in O: out.append(fmt(O[arg]))
             else: err = True
-            lines.append('%s %s.%s;' % (PRINT, tgt, arg))
+            lines.append('%s rd%d(%s);' % (PRINT, KEYS_.index(arg), tgt) if via_fn else '%s %s.%s;' % (PRINT, tgt, arg))
         elif op == 'write':
-            O[arg] = val; lines.append('%s.%s = %d;' % (tgt, arg, val))
+            O[arg] = val; lines.append('wr%d(%s, %d);' % (KEYS_.index(arg), tgt, val) if via_fn else '%s.%s = %d;' % (tgt, arg, val))
         elif op == 'del':
             if arg in O: del O[arg]
             else: err = True
-            lines.append('%s(%s, "%s");' % (DELETE, tgt, arg))
+            lines.append('dl(%s, "%s");' % (tgt, arg) if via_fn else '%s(%s, "%s");' % (DELETE, tgt, arg))
         elif op == 'list':
             ks = sorted(O, key=lambda s: s.encode('utf-8'))
             out.append(fmt(ks)); out.append(fmt([O[k] for k in ks]))
-            lines.append('%s %s(%s);\n%s %s(%s);' % (PRINT, KEYS, tgt, PRINT, VALUES, tgt))
+            lines.append('%s ks(%s);\n%s vs(%s);' % (PRINT, tgt, PRINT, tgt) if via_fn else '%s %s(%s);\n%s %s(%s);' % (PRINT, KEYS, tgt, PRINT, VALUES, tgt))
         elif op == 'nest':
             O['k'] = v[other] if v[other] is not O else val
             lines.append('%s.k = %s;' % (tgt, other if v[other] is not O else str(val)))
@@ -102,6 +108,11 @@ def run(env, tier, seed, broken=None):
         cid = 'q%d' % n; n += 1
         cases.append({'id': cid, 'src': src, 'repeat': 3 if n % 5 == 0 else 0})
         expect[cid] = (out, err)
+        if len(s) >= 2 and (len(s) > 2 or n % 3 == 0):
+            src, out, err = program(s, via_fn=True)
+            cid = 'q%d' % n; n += 1
+            cases.append({'id': cid, 'src': src})
+            expect[cid] = (out, err)
     for ka, kb in itertools.permutations(KEYS_, 2):
         for order in (0, 1):
             s = [(('lit', 3), 'o', 'q'), (('write', ka), 'o', 'q'), (('list', None), 'o', 'q')]
